@@ -1,12 +1,14 @@
-SPECIFICATION Spec
+\* Liveness: finitely many UNPREPARED answers / failures => every query returns ("live_two").
+SPECIFICATION FairSpec
 CONSTANTS
-  Execs = {"e1", "e2", "e3"}
+  Execs = {"e1", "e2"}
   Arity <- MCArity
-  MaxLRU = 2
+  MaxLRU = 1
   MaxForget = 2
   MaxFail = 1
   Cancellable = {"e2"}
   UniqueIds = TRUE
-  Plans <- PlansAll
+  Plans <- PlansSmall
 INVARIANTS Bounded PreparedOnce FailedNotCached FailedReported ExecAttribution ArityChecked Justified NoStuck
+PROPERTY Terminates
 CHECK_DEADLOCK FALSE
